@@ -20,6 +20,12 @@
 //! recovery-id flip / reversed order), each re-notarized and also with the stale notary signature; (3) every offset of
 //! the 7 seeds' raw bytes x substitutions (quick: orig^1, orig^0x80, 0x00, 0xFF; thorough: all 255, plus all 255x255
 //! substitutions of two adjacent bytes on the two smallest seeds).
+//! (4) signature reuse, with no cryptographic reference at all: a family of degenerate (key, signature) byte pairs
+//! (ed25519: 15 small-order / non-canonical point encodings as key x as R x s in {0,1,L,L-1}; secp256k1: r,s in
+//! {0,1,n-1,n,ff..ff} x 6 recovery-id bytes x 7 invalid / special keys) plus honest signatures made for one content is
+//! placed, byte-identical, as V1 intent signature, V1 notary signature (+- signatory), V2 root intent signature, V2
+//! subintent signature and V2 notary signature on 3 transactions that differ only in nonce / discriminator: the same
+//! (key, signature) must never be accepted as authorising the same key on two different contents.
 use crate::txseeds::*;
 use mc_core::{catch, par_range, Ctx, Level, Local};
 use radix_common::prelude::*;
@@ -511,6 +517,287 @@ fn perturbations(spec: &TxSpec, t: &BuiltTx) -> Vec<(String, BuiltTx)> {
 }
 
 // ------------------------------------------------------------------------------------------------
+// (4) signature reuse: the same (key, signature) bytes on transactions with different content
+// ------------------------------------------------------------------------------------------------
+//
+// No cryptographic reference is involved: whatever a (key, signature) pair is, it must not be accepted as
+// authorising two different contents. The family is made of degenerate encodings (small-order / non-canonical
+// ed25519 points as key and as R with s in {0, 1, L, L-1}; secp256k1 r, s in {0, 1, n-1, n, ff..ff} with every
+// recovery id, invalid / infinity keys) plus honest signatures made for content 0.
+
+#[derive(Clone, Copy, PartialEq, Eq, Debug)]
+enum Pos {
+    V1Intent,
+    V1Notary(bool),
+    V2Root,
+    V2Sub,
+    V2Notary(bool),
+}
+
+impl Pos {
+    fn label(&self) -> &'static str {
+        match self {
+            Pos::V1Intent => "v1-intent-signature",
+            Pos::V1Notary(false) => "v1-notary-signature",
+            Pos::V1Notary(true) => "v1-notary-signature(signatory)",
+            Pos::V2Root => "v2-root-intent-signature",
+            Pos::V2Sub => "v2-subintent-signature",
+            Pos::V2Notary(false) => "v2-notary-signature",
+            Pos::V2Notary(true) => "v2-notary-signature(signatory)",
+        }
+    }
+    fn is_notary(&self) -> bool {
+        matches!(self, Pos::V1Notary(_) | Pos::V2Notary(_))
+    }
+}
+
+const ALL_POS: [Pos; 7] = [Pos::V1Intent, Pos::V1Notary(false), Pos::V1Notary(true), Pos::V2Root, Pos::V2Sub, Pos::V2Notary(false), Pos::V2Notary(true)];
+const REUSE_CONTENTS: usize = 3;
+
+#[derive(Clone)]
+struct Pair {
+    label: String,
+    ed: bool,
+    /// 32 (ed25519) or 33 (secp256k1) bytes; for secp256k1 intent signatures there is no attached key
+    key: Vec<u8>,
+    /// 64 (ed25519) or 65 (secp256k1) bytes
+    sig: Vec<u8>,
+    /// honest signature made for content 0 of this position only
+    honest_for: Option<Pos>,
+}
+
+impl Pair {
+    fn public_key(&self) -> PublicKey {
+        if self.ed {
+            PublicKey::Ed25519(Ed25519PublicKey(self.key.clone().try_into().unwrap()))
+        } else {
+            PublicKey::Secp256k1(Secp256k1PublicKey(self.key.clone().try_into().unwrap()))
+        }
+    }
+    fn intent_signature(&self) -> IntentSignatureV1 {
+        IntentSignatureV1(if self.ed {
+            SignatureWithPublicKeyV1::Ed25519 { public_key: Ed25519PublicKey(self.key.clone().try_into().unwrap()), signature: Ed25519Signature(self.sig.clone().try_into().unwrap()) }
+        } else {
+            SignatureWithPublicKeyV1::Secp256k1 { signature: Secp256k1Signature(self.sig.clone().try_into().unwrap()) }
+        })
+    }
+    fn notary_signature(&self) -> SignatureV1 {
+        if self.ed {
+            SignatureV1::Ed25519(Ed25519Signature(self.sig.clone().try_into().unwrap()))
+        } else {
+            SignatureV1::Secp256k1(Secp256k1Signature(self.sig.clone().try_into().unwrap()))
+        }
+    }
+}
+
+fn reuse_spec(pos: Pos, content: usize) -> TxSpec {
+    let v2 = matches!(pos, Pos::V2Root | Pos::V2Sub | Pos::V2Notary(_));
+    let mut s = TxSpec::base(v2);
+    s.root.discriminator = 5000 + content as u64;
+    if pos == Pos::V2Sub {
+        let mut a = IntentSpec::base(1);
+        a.discriminator = 7000 + content as u64;
+        s.subs = vec![a];
+        s.root.children = vec![0];
+    }
+    s
+}
+
+/// The real transaction for (position, content) carrying `pair` at that position (None: nothing at that position; the
+/// notary positions then use the pair-less default notary). Returns the payload and the hash the position's signature
+/// has to cover.
+fn reuse_assemble(pos: Pos, content: usize, notary_key: Option<&PublicKey>, isig: Option<IntentSignatureV1>, nsig: Option<SignatureV1>) -> (Vec<u8>, Hash) {
+    let spec = reuse_spec(pos, content);
+    let settings = permissive_settings();
+    let honest_notary = spec.notary;
+    match pos {
+        Pos::V1Intent | Pos::V1Notary(_) => {
+            let mut intent = build_intent_v1(&spec, None);
+            if let (Pos::V1Notary(flag), Some(k)) = (pos, notary_key) {
+                intent.header.notary_public_key = *k;
+                intent.header.notary_is_signatory = flag;
+            }
+            let intent_hash = intent.prepare(&settings).expect("prepares").transaction_intent_hash().0;
+            let signed_intent = SignedIntentV1 { intent, intent_signatures: IntentSignaturesV1 { signatures: if pos == Pos::V1Intent { isig.into_iter().collect() } else { vec![] } } };
+            let signed_hash = signed_intent.prepare(&settings).expect("prepares").signed_transaction_intent_hash().0;
+            let notary_signature = match (pos, nsig) {
+                (Pos::V1Notary(_), Some(s)) => s,
+                _ => honest_notary.private().sign_without_public_key(&signed_hash),
+            };
+            let t = NotarizedTransactionV1 { signed_intent, notary_signature: NotarySignatureV1(notary_signature) };
+            (t.to_raw().expect("encodes").to_vec(), if pos == Pos::V1Intent { intent_hash } else { signed_hash })
+        }
+        Pos::V2Root | Pos::V2Sub | Pos::V2Notary(_) => {
+            let (mut intent, sub_hashes) = build_transaction_intent_v2(&spec, None);
+            if let (Pos::V2Notary(flag), Some(k)) = (pos, notary_key) {
+                intent.transaction_header.notary_public_key = *k;
+                intent.transaction_header.notary_is_signatory = flag;
+            }
+            let intent_hash = intent.prepare(&settings).expect("prepares").transaction_intent_hash().0;
+            let signed = SignedTransactionIntentV2 {
+                transaction_intent: intent,
+                transaction_intent_signatures: IntentSignaturesV2 { signatures: if pos == Pos::V2Root { isig.clone().into_iter().collect() } else { vec![] } },
+                non_root_subintent_signatures: NonRootSubintentSignaturesV2 {
+                    by_subintent: sub_hashes.iter().map(|_| IntentSignaturesV2 { signatures: if pos == Pos::V2Sub { isig.clone().into_iter().collect() } else { vec![] } }).collect(),
+                },
+            };
+            let signed_hash = signed.prepare(&settings).expect("prepares").signed_transaction_intent_hash().0;
+            let notary_signature = match (pos, nsig) {
+                (Pos::V2Notary(_), Some(s)) => s,
+                _ => honest_notary.private().sign_without_public_key(&signed_hash),
+            };
+            let t = NotarizedTransactionV2 { signed_transaction_intent: signed, notary_signature: NotarySignatureV2(notary_signature) };
+            let covered = match pos {
+                Pos::V2Root => intent_hash,
+                Pos::V2Sub => sub_hashes[0].0,
+                _ => signed_hash,
+            };
+            (t.to_raw().expect("encodes").to_vec(), covered)
+        }
+    }
+}
+
+fn unhex32(s: &str) -> [u8; 32] {
+    mc_core::unhex(s).try_into().expect("32 bytes")
+}
+
+fn degenerate_pairs() -> Vec<Pair> {
+    let mut out = vec![];
+    // ---- ed25519: the 8 small-order encodings, the non-canonical encodings of 0 / 1 (y = p, y = p + 1), sign-bit
+    // variants, all-ones
+    let mut points: Vec<(&str, [u8; 32])> = vec![
+        ("identity", unhex32("0100000000000000000000000000000000000000000000000000000000000000")),
+        ("order2", unhex32("ecffffffffffffffffffffffffffffffffffffffffffffffffffffffffffff7f")),
+        ("order4a", unhex32("0000000000000000000000000000000000000000000000000000000000000000")),
+        ("order4b", unhex32("0000000000000000000000000000000000000000000000000000000000000080")),
+        ("order8a", unhex32("26e8958fc2b227b045c3f489f2ef98f0d5dfac05d3c63339b13802886d53fc05")),
+        ("order8b", unhex32("c7176a703d4dd84fba3c0b760d10670f2a2053fa2c39ccc64ec7fd7792ac037a")),
+        ("order8c", unhex32("26e8958fc2b227b045c3f489f2ef98f0d5dfac05d3c63339b13802886d53fc85")),
+        ("order8d", unhex32("c7176a703d4dd84fba3c0b760d10670f2a2053fa2c39ccc64ec7fd7792ac03fa")),
+        ("identity-signbit", unhex32("0100000000000000000000000000000000000000000000000000000000000080")),
+        ("order2-signbit", unhex32("ecffffffffffffffffffffffffffffffffffffffffffffffffffffffffffffff")),
+        ("y=p", unhex32("edffffffffffffffffffffffffffffffffffffffffffffffffffffffffffff7f")),
+        ("y=p-signbit", unhex32("edffffffffffffffffffffffffffffffffffffffffffffffffffffffffffffff")),
+        ("y=p+1", unhex32("eeffffffffffffffffffffffffffffffffffffffffffffffffffffffffffff7f")),
+        ("y=p+1-signbit", unhex32("eeffffffffffffffffffffffffffffffffffffffffffffffffffffffffffffff")),
+    ];
+    points.push(("all-ones", [0xff; 32]));
+    let l = unhex32("edd3f55c1a631258d69cf7a2def9de1400000000000000000000000000000010");
+    let mut l_minus_1 = l;
+    l_minus_1[0] -= 1;
+    let mut one = [0u8; 32];
+    one[0] = 1;
+    let scalars: [(&str, [u8; 32]); 4] = [("0", [0u8; 32]), ("1", one), ("L", l), ("L-1", l_minus_1)];
+    for (kn, k) in &points {
+        for (rn, r) in &points {
+            for (sn, sc) in &scalars {
+                out.push(Pair { label: format!("ed25519:key={kn},R={rn},s={sn}"), ed: true, key: k.to_vec(), sig: [r.as_slice(), sc.as_slice()].concat(), honest_for: None });
+            }
+        }
+    }
+    // ---- secp256k1: r, s in {0, 1, n-1, n, ff..ff}, every recovery id byte in {0,1,2,3,4,255}; keys for the notary
+    // positions: invalid / infinity-like encodings, the generator, an honest key
+    let n = unhex32("fffffffffffffffffffffffffffffffebaaedce6af48a03bbfd25e8cd0364141");
+    let mut n_minus_1 = n;
+    n_minus_1[31] -= 1;
+    let mut be_one = [0u8; 32];
+    be_one[31] = 1;
+    let vals: [(&str, [u8; 32]); 5] = [("0", [0u8; 32]), ("1", be_one), ("n-1", n_minus_1), ("n", n), ("ff", [0xff; 32])];
+    let mut zero_key = vec![0u8; 33];
+    let keys: Vec<(&str, Vec<u8>)> = vec![
+        ("zeros", zero_key.clone()),
+        ("02|zeros", {
+            zero_key[0] = 2;
+            zero_key.clone()
+        }),
+        ("03|zeros", {
+            zero_key[0] = 3;
+            zero_key.clone()
+        }),
+        ("04|zeros", {
+            zero_key[0] = 4;
+            zero_key.clone()
+        }),
+        ("02|ff", [vec![2u8], vec![0xff; 32]].concat()),
+        ("generator", mc_core::unhex("0279be667ef9dcbbac55a06295ce870b07029bfcdb2dce28d959f2815b16f81798")),
+        ("honest-key-b", match KeyId::Secp(2).public() {
+            PublicKey::Secp256k1(k) => k.0.to_vec(),
+            _ => unreachable!(),
+        }),
+    ];
+    for (rn, r) in &vals {
+        for (sn, sv) in &vals {
+            for recid in [0u8, 1, 2, 3, 4, 255] {
+                let sig = [vec![recid], r.to_vec(), sv.to_vec()].concat();
+                for (kn, k) in &keys {
+                    out.push(Pair { label: format!("secp256k1:key={kn},recid={recid},r={rn},s={sn}"), ed: false, key: k.clone(), sig: sig.clone(), honest_for: None });
+                }
+            }
+        }
+    }
+    // ---- honest signatures made for content 0 of each position (transplants onto the other contents must fail)
+    for pos in ALL_POS {
+        for signer in [KeyId::Ed(3), KeyId::Secp(1)] {
+            let pk = signer.public();
+            let (_, covered) = reuse_assemble(pos, 0, Some(&pk), None, None);
+            let (key, sig, ed) = match (signer.private().sign_without_public_key(&covered), &pk) {
+                (SignatureV1::Ed25519(s), PublicKey::Ed25519(k)) => (k.0.to_vec(), s.0.to_vec(), true),
+                (SignatureV1::Secp256k1(s), PublicKey::Secp256k1(k)) => (k.0.to_vec(), s.0.to_vec(), false),
+                _ => unreachable!(),
+            };
+            out.push(Pair { label: format!("honest:{}:signed-for-content-0-of-{}", signer.label(), pos.label()), ed, key, sig, honest_for: Some(pos) });
+        }
+    }
+    out
+}
+
+fn run_reuse(validator: &TransactionValidator, pair: &Pair, l: &mut Local, stats: &Stats, reuse_cases: &AtomicU64) {
+    for pos in ALL_POS {
+        if let Some(p) = pair.honest_for {
+            if p != pos {
+                continue;
+            }
+        }
+        // a secp256k1 intent signature carries no key: the key variants only matter at the notary positions
+        if !pair.ed && !pos.is_notary() && !pair.label.contains("key=zeros") && pair.honest_for.is_none() {
+            continue;
+        }
+        let pk = pair.public_key();
+        let mut accepted: Vec<(usize, Hash, KeySet, Vec<u8>)> = vec![];
+        for content in 0..REUSE_CONTENTS {
+            let (bytes, covered) = reuse_assemble(pos, content, Some(&pk), Some(pair.intent_signature()), Some(pair.notary_signature()));
+            reuse_cases.fetch_add(1, Ordering::Relaxed);
+            let expect = if pair.honest_for.is_some() && content == 0 { Expect::MustAccept } else { Expect::Any };
+            let how = || json!({"pair": pair.label, "position": pos.label(), "content": content, "key_hex": mc_core::hex(&pair.key), "signature_hex": mc_core::hex(&pair.sig)});
+            if let Some(f) = check(validator, &bytes, "sigreuse", &how, expect, None, l, stats) {
+                // keys authorised at this position
+                let keys: KeySet = match pos {
+                    Pos::V1Intent | Pos::V2Root => f.sets.root.clone(),
+                    Pos::V2Sub => f.sets.subs.first().cloned().unwrap_or_default(),
+                    Pos::V1Notary(_) | Pos::V2Notary(_) => [key_str(&pk)].into_iter().collect(),
+                };
+                accepted.push((content, covered, keys, bytes));
+            }
+        }
+        for a in 0..accepted.len() {
+            for b in a + 1..accepted.len() {
+                let (ca, ha, ka, bytes_a) = &accepted[a];
+                let (cb, hb, kb, bytes_b) = &accepted[b];
+                let common: Vec<&String> = ka.intersection(kb).collect();
+                if ha != hb && !common.is_empty() {
+                    l.violation(
+                        format!("same-signature-accepted-for-two-contents:{}", pos.label()),
+                        format!("{}: the same (key, signature) bytes are accepted on contents {ca} and {cb} (covered hashes {ha} / {hb}) and authorise key {} on both", pair.label, common[0]),
+                        json!({"family": "sigreuse", "derivation": {"pair": pair.label, "position": pos.label(), "contents": [ca, cb], "key_hex": mc_core::hex(&pair.key), "signature_hex": mc_core::hex(&pair.sig), "other_payload_hex": mc_core::hex(bytes_a)}, "payload_hex": mc_core::hex(bytes_b)}),
+                    );
+                }
+            }
+        }
+        l.class(&format!("sigreuse:{}:accepted-on-{}-of-{}-contents", if pos.is_notary() { "notary" } else { "intent" }, accepted.len(), REUSE_CONTENTS));
+    }
+}
+
+// ------------------------------------------------------------------------------------------------
 
 pub fn run(ctx: Ctx) -> ! {
     assert_signing_is_deterministic();
@@ -637,7 +924,22 @@ pub fn run(ctx: Ctx) -> ! {
         ctx.note(format!("wall cap {DOUBLE_WALL_CAP_S}s hit during the adjacent-double-substitution sweep: {} of {} offsets completed; the product, signature-list and single-byte sweeps are complete", double.load(Ordering::Relaxed) / (255 * 255), double_jobs.len()));
     }
 
+    // ---- (4) the same (key, signature) bytes on different contents -----------------------------------------
+    let pairs = degenerate_pairs();
+    let reuse_cases = AtomicU64::new(0);
+    // contents really differ (else the sweep would be vacuous)
+    for pos in ALL_POS {
+        let pk = KeyId::Ed(3).public();
+        let hs: BTreeSet<Hash> = (0..REUSE_CONTENTS).map(|c| reuse_assemble(pos, c, Some(&pk), None, None).1).collect();
+        if hs.len() != REUSE_CONTENTS {
+            mc_core::machinery_error("C33: the signature-reuse contents do not have distinct hashes");
+        }
+    }
+    par_range(&ctx, pairs.len() as u64, 8, |i, l| run_reuse(&validator, &pairs[i as usize], l, &stats, &reuse_cases));
+
     let mut cov = Map::new();
+    cov.insert("signature_reuse_pairs".into(), json!(pairs.len()));
+    cov.insert("signature_reuse_payloads".into(), json!(reuse_cases.load(Ordering::Relaxed)));
     cov.insert("adjacent_double_substitution_offsets".into(), json!({"completed": double.load(Ordering::Relaxed) / (255 * 255), "planned": double_jobs.len()}));
     cov.insert("product_transactions".into(), json!(specs.len()));
     cov.insert("signature_list_perturbations".into(), json!(perturbed.len()));
